@@ -354,7 +354,7 @@ Proof.
   - eapply env_in_row; eauto.
   - unfold nth_ts in Hn. destruct (lookup src tsa) as [l|] eqn:El; [|discriminate].
     destruct (nth_error l (k - 1)) as [w|] eqn:En; inversion Hn; subst w.
-    eapply prefix_nth; [eapply prefix_trans; eauto|exact El|exact En].
+    eapply prefix_nth; [eapply prefix_trans; [exact P1|exact P2]|exact El|exact En].
 Qed.
 
 (** C02: decorative variables satisfy their equations exactly on the reported row *)
@@ -380,11 +380,7 @@ Lemma solve_exo_row p ts :
     exists val, exo_values (p_maxtime p) s = Ok val /\ row ts k x = nth_error val k.
 Proof.
   intros Hs Hnd k x s Hk Hin. destruct (solve_exo _ _ Hs Hnd x s Hin) as [val [Hv Hl]].
-  exists val. split; [exact Hv|]. unfold row. rewrite Hl.
-  rewrite <- (firstn_skipn (S (p_maxtime p)) val) at 2.
-  destruct (Nat.le_gt_cases (S (p_maxtime p)) (List.length val)) as [Hlen|Hlen].
-  - symmetry. apply nth_error_app1. rewrite firstn_length. lia.
-  - rewrite firstn_all2 by lia. rewrite firstn_skipn. reflexivity.
+  exists val. split; [exact Hv|]. unfold row. rewrite Hl. apply nth_error_firstn_lt. lia.
 Qed.
 
 (** C02: stop test.  With a tolerance below 1 (so that the loop is entered), the reported
@@ -402,7 +398,8 @@ Lemma solve_stop_test p ts :
 Proof.
   intros Hs Htol k Hk.
   destruct (period_facts _ _ Hs k Hk) as [ts0 [exo' [tsa [Ei [Hr [Hpre [Hok [F [P1 [P2 Hexo]]]]]]]]]].
-  destruct (st_stop _ _ _ _ _ _ F Htol) as [u [w [r [m [W1 [W2 [W3 W4]]]]]]].
+  destruct (st_stop _ _ _ _ _ _ F Htol (fun _ _ => True) (fun _ _ _ _ _ _ _ => I) (fun _ _ => I))
+    as [u [w [r [m [_ [W1 [W2 [W3 W4]]]]]]]].
   exists u, w, r, m. repeat split; auto.
   - intros x Hx. rewrite <- (W3 x Hx).
     assert (Hd : In x (nonexo_names p)) by (unfold nonexo_names; apply in_or_app; now left).
@@ -455,4 +452,112 @@ Proof.
   destruct (init_facts_ok _ _ _ Ei) as [F Hfin].
   eapply reached_finite; [exact Hr|exact (if_exo_len _ _ _ F)|lia|].
   intros x l v. now apply all_finite_lookup.
+Qed.
+
+(** C10: the time axis.  The parser's default equation [t = k] (endogenous, or decorative after
+    reduction): [t] equals [k] in every solved period.  For an endogenous [t] the damped update
+    computes (k + k) / 2, so the statement carries the (decidable, checked in PropC10.v for
+    horizons up to 5000) side condition that this is exact for the period indices. *)
+Definition half_exact (T : nat) : Prop :=
+  forall i, i <= T -> ((float_of_nat i + float_of_nat i) / 2)%float = float_of_nat i.
+
+Lemma solve_t_endo p ts :
+  solve p = Ok ts -> keep_going 1%float (p_tol p) = true ->
+  In ("t", EVar "k") (p_endo p) -> ~ In "k" (varlist p) -> half_exact (p_maxtime p) ->
+  forall k, 1 <= k <= p_maxtime p -> row ts k "t" = Some (float_of_nat k).
+Proof.
+  intros Hs Htol Ht Hk Hhalf k Hkk.
+  destruct (period_facts _ _ Hs k Hkk) as [ts0 [exo' [tsa [Ei [Hr [Hpre [Hok [F [P1 [P2 Hexo]]]]]]]]]].
+  destruct (init_facts_ok _ _ _ Ei) as [IF _].
+  assert (Hkin : In "k" (map fst exo')).
+  { destruct (if_exo _ _ _ IF) as [[Hk' _]|[_ ->]]; [tauto|]. rewrite map_app. apply in_or_app. right. now left. }
+  set (fk := float_of_nat k).
+  assert (Hkrow : row ts k "k" = Some fk).
+  { unfold row. rewrite (solve_k _ _ Hs Hk). apply kseries_nth. lia. }
+  assert (Hkn : ~ In "k" (nonexo_names p)) by (intros H; exact (st_disj _ _ _ _ _ _ F _ H Hkin)).
+  assert (Hke : ~ In "k" (endo_names p)) by (intros H; apply Hkn; unfold nonexo_names; apply in_or_app; now left).
+  assert (Hnd_endo : NoDup (map fst (p_endo p))) by (eapply NoDup_app_l; exact (st_nodup _ _ _ _ _ _ F)).
+  assert (Hte : In "t" (endo_names p)) by (apply (in_map fst) in Ht; exact Ht).
+  (* value of k in the period's environments *)
+  assert (Hkv : forall ini, start_env p exo' tsa k = Ok ini -> lookup "k" ini = Some fk).
+  { intros ini Hini. pose proof (start_env_facts _ _ _ _ _ Hini) as SF.
+    assert (Hnl : ~ In "k" (lag_names p)).
+    { intros H; apply Hkn; unfold nonexo_names; apply in_or_app; right; apply in_or_app; now left. }
+    destruct (sf_exo _ _ _ _ _ SF "k" Hkin Hnl Hke) as [v [Hv Hl]]. rewrite Hl. f_equal.
+    unfold row in Hkrow. rewrite (Hexo "k" Hkin) in Hkrow. unfold nth_ts in Hv.
+    destruct (lookup "k" tsa) as [l|]; [|discriminate]. rewrite Hkrow in Hv. now inversion Hv. }
+  set (I := fun (c : env) (n : nat) => lookup "k" c = Some fk /\ (1 <= n -> lookup "t" c = Some fk)).
+  assert (HIp : forall cur n new rel had, I cur n -> sweep p cur = Ok (new, rel, had) -> I (next_env p cur new n) (S n)).
+  { intros cur n new rel had [Ik It] Hsw. unfold sweep in Hsw.
+    assert (Hnk : lookup "k" new = Some fk) by (rewrite (sweep_eqs_frame _ _ _ _ _ _ _ _ Hsw "k" Hke); exact Ik).
+    assert (Hnt : lookup "t" new = Some fk).
+    { destruct (sweep_eqs_vals_gen _ _ _ _ _ _ _ _ Hsw Hnd_endo "t" (EVar "k") Ht) as [v [h [h' [He Hv]]]].
+      unfold eval_eq in He. simpl in He. unfold envf in He. rewrite Ik in He. inversion He; subst. exact Hv. }
+    unfold next_env, I. destruct (Nat.ltb 10 n) eqn:En.
+    - split; [rewrite damp_frame by exact Hke; exact Hnk|]. intros _.
+      rewrite (damp_val _ _ _ _ Hnd_endo Hte). apply Nat.ltb_lt in En.
+      unfold getv. rewrite Hnt, (It ltac:(lia)). f_equal. apply Hhalf. lia.
+    - split; [exact Hnk|intros _; exact Hnt]. }
+  assert (HIi : forall ini, start_env p exo' tsa k = Ok ini -> I ini 0).
+  { intros ini Hini. split; [now apply Hkv|lia]. }
+  destruct (st_stop _ _ _ _ _ _ F Htol I HIp HIi) as [u [w [r [m [HIu [W1 [W2 [W3 W4]]]]]]]].
+  destruct (HIp _ _ _ _ _ HIu W1) as [_ Hfin]. rewrite <- (W3 "t" Hte) in Hfin.
+  eapply env_in_row; eauto. apply Hfin. lia.
+Qed.
+
+Lemma solve_t_deco p ts :
+  solve p = Ok ts -> In ("t", EVar "k") (p_deco p) -> ~ In "k" (varlist p) ->
+  forall k, 1 <= k <= p_maxtime p -> row ts k "t" = Some (float_of_nat k).
+Proof.
+  intros Hs Ht Hk k Hkk. destruct (solve_deco _ _ Hs k "t" (EVar "k") Hkk Ht) as [v [Hv He]].
+  simpl in He. unfold row in He at 1. rewrite (solve_k _ _ Hs Hk), kseries_nth in He by lia.
+  inversion He; subst. exact Hv.
+Qed.
+
+(* ------------------------------------------------------------------ traces of the periods *)
+Definition passed (tol : float) (tr : list (float * bool)) : Prop :=
+  exists r, In (r, false) tr /\ leb r tol = true.
+
+Lemma step_trace_ok p exo k ts :
+  keep_going 1%float (p_tol p) = true -> sr_err (step p exo k ts) = None ->
+  passed (p_tol p) (sr_trace (step p exo k ts)).
+Proof.
+  intros Htol Hok. destruct (step_ok_inv _ _ _ _ Hok) as [ini [e' [computed [Es [El [_ [_ [_ [_ [Htr _]]]]]]]]]].
+  rewrite Htr. unfold run_loop in *.
+  destruct (loop_witness p (fun _ _ => True) (fun _ _ _ _ _ _ _ => I) (S (p_maxiter p)) ini 1%float false 0 [] I El)
+    as [[K1 _]|[u [w [r [m [pre0 [_ [_ [W3 [_ [_ [W6 _]]]]]]]]]]]]; [congruence|].
+  exists r. split.
+  - rewrite W6. simpl. apply in_or_app. right. now left.
+  - unfold keep_going in W3. now apply negb_false_iff in W3.
+Qed.
+
+Lemma steps_traces p exo n : forall k ts sw trs,
+  keep_going 1%float (p_tol p) = true ->
+  Forall (passed (p_tol p)) trs ->
+  rr_err (steps n p exo k ts sw trs) = None ->
+  Forall (passed (p_tol p)) (rr_traces (steps n p exo k ts sw trs)).
+Proof.
+  induction n as [|n IH]; intros k ts sw trs Htol Htrs; simpl; [auto|].
+  destruct (sr_err (step p exo k ts)) eqn:Ee; simpl; [discriminate|].
+  apply IH; [exact Htol|]. apply Forall_app. split; [exact Htrs|].
+  constructor; [now apply step_trace_ok|constructor].
+Qed.
+
+(** C02: a run in which some period had no sweep passing the stop test is an error *)
+Lemma run_no_diverged p :
+  keep_going 1%float (p_tol p) = true ->
+  forall tr, In tr (rr_traces (run p)) -> (forall r h, In (r, h) tr -> leb r (p_tol p) = false) ->
+  rr_err (run p) <> None.
+Proof.
+  intros Htol tr Hin Hall Hnone. unfold run in *.
+  destruct (init p) as [[ts0 exo']|]; simpl in *; [|discriminate].
+  pose proof (steps_traces p exo' (p_maxtime p) 1 ts0 [] [] Htol (Forall_nil _) Hnone) as HF.
+  rewrite Forall_forall in HF. destruct (HF tr Hin) as [r [Hr Hl]].
+  rewrite (Hall r false Hr) in Hl. discriminate.
+Qed.
+
+Lemma run_sweeps_bound p : Forall (fun m => m <= S (p_maxiter p)) (rr_sweeps (run p)).
+Proof.
+  unfold run. destruct (init p) as [[ts0 exo']|]; simpl; [|constructor].
+  apply steps_sweeps_bound. constructor.
 Qed.
